@@ -7,6 +7,7 @@ block list, cue-sheet text import / rendering / track ranges, channel mask parsi
               duration: division only behind filter(sample_rate > 0);  unquote: slicing only behind len > 1;
               cue import: relative offsets subtracted only after offset >= track offset; MM:SS:FF conversion checked;
               picture sniffers: checked_sub on segment lengths, widened colour-depth products;
+              STREAMINFO sample size: code + 1 before signed_count (the audited unwrap);
               LimitedReader: remaining size decremented by the bytes actually read
 """
 from rules.common import *
@@ -76,6 +77,24 @@ def guards(ctx, rep, P):
     if jb is not None:
         cs = [t for _, t in jb.calls() if re.search(r"<impl u16>::checked_sub$", callee_name(t))]
         rep.check(P + ".guard", "try_jpeg: segment length - 2 is checked", len(cs) == 1, loc_of(jb))
+    # ---- STREAMINFO bits-per-sample: (5-bit code + 1) first, signed count second --------------------------------
+    sb = [b for b in F.bodies if b.promoted is None and b.path == "<metadata::Streaminfo as bitstream_io::FromBitStream>::from_reader"]
+    if not sb:
+        rep.bad(P + ".guard", "anchor:Streaminfo::from_reader", "", "not found")
+    for b in sb[:1]:
+        def from_inc(body, o):
+            return any(re.search(r"BitCount::<MAX>::checked_add$|BitCount<.*>::checked_add$", callee_name(c)) and op_int(c["a"][1]) == 1 for c in backward_slice(body, o)["calls"])
+        sc = []
+        for c in [b] + F.closures_of(b):
+            for _, t in c.calls():
+                if re.search(r"BitCount(::<MAX>|<.*>)::signed_count$", callee_name(t)):
+                    if c is b:
+                        sc.append(from_inc(b, t["a"][0]))
+                    else:
+                        host = [h for _, h in b.calls() if c.path in [getattr(F.body(x), "path", None) for x in (h.get("cls") or ())]]
+                        sc.append(len(host) == 1 and from_inc(b, host[0]["a"][0]))
+        rep.check(P + ".guard", "Streaminfo::from_reader: the 5-bit sample-size code is incremented before it is turned into a signed bit count", sc == [True], loc_of(b), str(sc),
+                  "signed_count() is applied to the raw 5-bit code (0 for 1-bit samples has no signed count): the unwrap audited as `code + 1 in 1..=32` panics on a STREAMINFO with code 0")
     # ---- LimitedReader ----------------------------------------------------------------------------------------
     from rules import iolib
     iolib.limited_reader_rule(F, rep, P + ".guard")
